@@ -10,7 +10,8 @@ import Zed.Model.FuseFits
   type) holds for that input.
   `(C20 merge T T)` → the merged type.   Answers `fuel` if merge ran out of fuel.
 
-  type:  (p id) (r (hexname T)…) (a T) (s T) (m K V) (u T…) (n hexname T)
+  type:  (p id) (r (hexname T)…) (a T) (s T) (m K V) (u T…) (n hexname T) (e T) (en hexsym…)
+         values of enum / error types travel as opaque leaves (p 1000 hex) / (p 1001 hex)
   value: n | (p id hex) | (r V…) | (l V…) | (m V…) | (u tag V)
 -/
 namespace Zed.Drv.C20
@@ -25,6 +26,8 @@ partial def tyOf : Sexp → Option Ty
   | .list [.atom "m", k, v] => do pure (.map (← tyOf k) (← tyOf v))
   | .list (.atom "u" :: ts) => do pure (.union (Tys.ofList (← ts.mapM tyOf)))
   | .list [.atom "n", .atom n, t] => do pure (.named (← Sexp.bytesOfHex n) (← tyOf t))
+  | .list [.atom "e", t] => do pure (.error (← tyOf t))
+  | .list (.atom "en" :: ss) => do pure (.enum (← ss.mapM fun | .atom x => Sexp.bytesOfHex x | _ => none))
   | _ => none
 partial def fieldOf : Sexp → Option (Name × Ty)
   | .list [.atom n, t] => do pure (← Sexp.bytesOfHex n, ← tyOf t)
@@ -48,6 +51,8 @@ partial def tyStr : Ty → Sexp
   | .map k v => .list [.atom "m", tyStr k, tyStr v]
   | .union ts => .list (.atom "u" :: ts.toList.map tyStr)
   | .named n t => .list [.atom "n", .atom (Sexp.hexOfBytes n), tyStr t]
+  | .error t => .list [.atom "e", tyStr t]
+  | .enum ss => .list (.atom "en" :: ss.map fun x => .atom (Sexp.hexOfBytes x))
 
 partial def valStr : Val → Sexp
   | .null => .atom "n"
